@@ -48,7 +48,8 @@ check("C17", "exploration",
       "(global, urgent, arrays, typedef, template-local, used); the comparisons also under ||, imply, forall, nested "
       "conjunctions, inline-if bounds and on clock-array elements; assignments hidden in global / template-local functions "
       "and their statements; clock-array initialisers; rates under forall; pairs of features for different methods in two "
-      "templates in both orders; channel and process priorities - each instantiated "
+      "templates in both orders; every channel-priority list of 1-3 elements with every choice of separators, process priorities "
+      "at every position of the system line - each instantiated "
       "(explicitly and directly), uninstantiated, and in two declaration orders. Oracle: a method is reported supported only "
       "if the generator's feature flag permits it; unused templates and declaration order do not change the verdict.",
       "Only the statement's 'only if' direction and invariance clauses are demanded; variable-valued rates are not claimed "
@@ -167,7 +168,9 @@ check("C08", "exploration",
       "DESIGN.md §3/C08")
 
 check("C10", "exploration",
-      "Every boolean formula tree up to depth 3 over the atom/connective alphabet, as guard and as invariant, is type "
+      "Every boolean formula tree up to depth 3 over the atom/connective alphabet (and every depth-2 tree over 20 atom spellings), "
+      "placed as guard (plain edge, edge into / out of a branchpoint, edge with select and synchronisation) and as invariant "
+      "(ordinary, urgent, committed location, second template), is type "
       "checked by the real library and compared with a reference convexity classifier transcribed from the statement; "
       "a plain conjunction of atoms that are accepted alone must be accepted. Exhaustive within the stated alphabet/depth.",
       "Trusts the reference classifier R4 in checks/c10.py and the small-scope hypothesis (depth <= 3, 3 (quick) / 6 (thorough) "
@@ -183,7 +186,9 @@ check("C11", "exploration",
       "statement forms, reference parameters; 13 target shapes - conditional lvalues mixing locals, parameters and globals, "
       "indexed and selected targets - x 4 operators inside functions), the core forms at 10 positions inside the context's "
       "expression; each cell is paired with a read-only twin that must be accepted and a "
-      "local-only-writer control, so that the real type checker's verdicts are decided cell by cell.",
+      "local-only-writer control, so that the real type checker's verdicts are decided cell by cell. Plus template-local writers "
+      "around later same-named declarations, and six contexts inside the definition of a dynamic template whose announcement "
+      "stands before / between / after the called functions.",
       "Twins in compile-time contexts read constants only. Progress measures are not in the statement's list and are not "
       "enumerated. Small scope: chains <= 3, one representative per statement form.",
       "bounded-exhaustive matrix enumeration on the real type checker with a twin (differential) oracle",
@@ -196,7 +201,9 @@ check("C12", "exploration",
       "(assignment operators, ++/--, inline-if lvalues, chained assignment, non-const reference arguments direct and chained): "
       "1524 documents decided by the real type checker; const cell must be rejected, its mutable twin accepted. Plus constness "
       "buried in 11 composite types (records of arrays of a typedef'd const, arrays of records, nested records): every scalar "
-      "access path x 8 write forms x {update, function body, reference parameter of the composite type}.",
+      "access path x 8 write forms x {update, function body, reference parameter of the composite type}. Dynamic templates with "
+      "const / reference parameters and spawn arguments; 14 shapes of a constant reaching a written reference parameter through the "
+      "own parameters of one and two partial instances.",
       "Quantifier binders have no accepted twin. Small scope: listed shapes/forms.",
       "bounded-exhaustive matrix enumeration on the real type checker with a twin (differential) oracle",
       "DESIGN.md §3/C12")
@@ -209,7 +216,8 @@ check("C13", "exploration",
       "directly, through arrays/structs/inline-if, through functions of depth 1-3, statements, loops, arguments, meta "
       "variables), plus free process parameters inside array sizes with bound twins, plus 7 function-local contexts x 11 "
       "dependence chains that stay inside one function body (parameters, local variables, local constants initialised from "
-      "run-time values); mutable cell must be rejected, constant twin accepted.",
+      "run-time values), const-typed template parameters through functions, chains of 1-3 partial instantiations, and 8 chains "
+      "through template-local constant arrays / records / arrays of records x 4 sinks; mutable cell must be rejected, constant twin accepted.",
       "Every declared type is used. Function-local initialisers are outside the statement. Small scope: chains <= 3.",
       "bounded-exhaustive matrix enumeration on the real type checker with a twin (differential) oracle",
       "DESIGN.md §3/C13")
@@ -252,7 +260,9 @@ check("C09", "exploration",
       "simulation, every scoped declaration (binders, parameters, locals) renamed to every outer name that is not used in its "
       "scope (shadowing vs. fresh name), and keyword-operator aliases in either direction at every occurrence. Diagnostic messages (renaming mapped "
       "back, positions ignored), supported methods, document dump and parsed queries must equal the base model's. Plus a "
-      "redundant pair of parentheses around every node of every depth-2 expression tree of the C02 enumeration.",
+      "redundant pair of parentheses around every node of every depth-2 expression tree of the C02 enumeration. One name declared "
+      "in two scopes: 7 kinds of declaration x every pair of {global, two templates, function body} x every pair of well-formed / "
+      "ill-formed spellings x renaming either declaration alone (522 pairs of models).",
       "Trusts lib/exprgen.py to render the same tree with extra parentheses / alias spellings. sup, inf, bounds, simulation are "
       "not used for template/location names (the XML reader deliberately refuses keywords there). Newlines are not inserted "
       "into queries (they separate queries). Small scope: the base models of checks/c09.py, one rewrite at a time.",
